@@ -93,7 +93,7 @@ func valueFocusSchema() *schema.BodySchema {
 var valueFocusTexts = map[string][]string{
 	"typedecl": {"", " st", " string", " list()", " list( )", " list(str)", " set(string)", " map(", " map(number)", " tuple([])", " tuple([ ])", " tuple([string, ])",
 		" tuple([string, number])", " tuple([str])", " object({})", " object({ })", " object({ a = })", " object({ a = string, b = })", " object({\n  a = string\n  \n})",
-		" object({ a = list(string), b = tuple([bool, ]) })", " optional(string)", " object({ a = optional(str) })", " list(list())", " any", " tupl"},
+		" object({ a = list(string), b = tuple([bool, ]) })", " optional(string)", " object({ a = optional(str) })", " list(list())", " any", " tupl", " list ()", " map ( )", " tuple ([])", " object ({})", " set (string)"},
 	"scalar": {"", " ", " inh", " inherit", " inherit.x", " tr", " true", " fals", " t.x", " \"fi\"", " \"fixed\"", " \"fixed", " 42", " null", " var.", " var.v", " x", " [", " {", " fä", " trüe", " inhérit", " inherit[0]", " ignore.y", " true.x"},
 	"list": {" []", " [ ]", " [inh]", " [ inherit, ]", " [inherit,  inh]", " [inherit, , inherit]", " [\n  inherit,\n  \n]", " [x.]", " [var.]", " [tr, fa]", " [true, f", " [",
 		" [ inherit", " [true,false, ]", " [ign", " [\"a\", \"b\"]", " [\"a\", ]", " [ true, fö ]", " [inherit.x, inh.y]"},
